@@ -57,6 +57,32 @@ func (in *Interp) fpCmp(op string, a, b *Term) *Term {
 		zb := tt.Eq(tt.Bin(OpBAnd, b, tt.BV(b.w, abs)), tt.BV(b.w, 0))
 		return tt.And(tt.And(tt.Not(in.fpIsNaN(a)), tt.Not(in.fpIsNaN(b))), tt.Or(tt.Eq(a, b), tt.And(za, zb)))
 	}
+	// ordered comparisons in pure bit-vector form: map the sign-magnitude
+	// pattern to an unsigned key that is monotone in the float order
+	tt := in.tt
+	w := a.w
+	sign := uint64(1) << uint(w-1)
+	key := func(x *Term) *Term {
+		neg := tt.Not(tt.Eq(tt.Bin(OpBAnd, x, tt.BV(w, sign)), tt.BV(w, 0)))
+		return tt.Ite(neg, tt.Un(OpBNot, x), tt.Bin(OpBOr, x, tt.BV(w, sign)))
+	}
+	abs := mask(w) >> 1
+	za := tt.Eq(tt.Bin(OpBAnd, a, tt.BV(w, abs)), tt.BV(w, 0))
+	zb := tt.Eq(tt.Bin(OpBAnd, b, tt.BV(w, abs)), tt.BV(w, 0))
+	ord := tt.And(tt.Not(in.fpIsNaN(a)), tt.Not(in.fpIsNaN(b)))
+	eq := tt.Or(tt.Eq(a, b), tt.And(za, zb))
+	lt := tt.And(tt.Not(eq), tt.Cmp(OpUlt, key(a), key(b)))
+	gt := tt.And(tt.Not(eq), tt.Cmp(OpUlt, key(b), key(a)))
+	switch op {
+	case "fp.lt":
+		return tt.And(ord, lt)
+	case "fp.leq":
+		return tt.And(ord, tt.Or(lt, eq))
+	case "fp.gt":
+		return tt.And(ord, gt)
+	case "fp.geq":
+		return tt.And(ord, tt.Or(gt, eq))
+	}
 	c := fpSort(a.w)
 	return in.tt.Raw(0, "("+op+" ("+c+" %0) ("+c+" %1))", a, b)
 }
